@@ -3,7 +3,8 @@ import copy
 
 PROPERTY = 'C18'
 THEOREMS = ['Diag.tasks_partition', 'Diag.tests_partition', 'Diag.testEvents_spec', 'Diag.tasks_success_iff',
-            'Diag.tests_success_iff', 'Diag.labels_row_sum', 'Diag.labels_n', 'Diag.labels_success_iff']
+            'Diag.tests_success_iff', 'Diag.labels_row_sum', 'Diag.labels_n', 'Diag.labels_success_iff',
+            'Diag.labels_rows_exact', 'Diag.labels_total', 'Diag.carries_unique', 'Diag.rloop_exact']
 BUDGET = {'quick': 1500, 'thorough': 30000}
 TIME_LIMIT = {'quick': 50, 'thorough': 600}
 RULE = ('0-40 task sections with any TaskStatus, with/without a result key, 0-5 stub results each with scripted verdicts '
